@@ -1,12 +1,14 @@
 #!/venv/bin/python
-"""Adds the first-evaluation verdicts (notes/seeded_round{1,2}.log: the checks as
+"""Adds the first-evaluation verdicts (notes/seeded_round<n>.log: the checks as
 they were *before* the change was known) to seeded/*/meta.json and prints the
 markdown table for DESIGN.md section 12."""
 import json, os, re
 HERE = os.path.dirname(os.path.abspath(__file__))
 VERIF = os.path.dirname(HERE)
 first = {}
-for rnd, fn in (("r1", "seeded_round1.log"), ("r2", "seeded_round2.log"), ("r3", "seeded_round3.log")):
+ROUNDS = ("r1", "r2", "r3", "r4")
+for rnd in ROUNDS:
+    fn = "seeded_round%s.log" % rnd[1:]
     path = os.path.join(VERIF, "notes", fn)
     if not os.path.exists(path):
         continue
@@ -15,7 +17,7 @@ for rnd, fn in (("r1", "seeded_round1.log"), ("r2", "seeded_round2.log"), ("r3",
         if m:
             first[(m.group(1), m.group(2), rnd)] = m.group(4) == "True"
 rows = []
-tot = {"r1": [0, 0, 0], "r2": [0, 0, 0], "r3": [0, 0, 0]}
+tot = {r: [0, 0, 0] for r in ROUNDS}
 for d in sorted(os.listdir(os.path.join(VERIF, "seeded"))):
     mp = os.path.join(VERIF, "seeded", d, "meta.json")
     if not os.path.exists(mp):
@@ -36,6 +38,8 @@ for d in sorted(os.listdir(os.path.join(VERIF, "seeded"))):
 print("| property | round | change (seeded/) | caught at first evaluation | caught by the final checks | violation class |")
 print("|---|---|---|---|---|---|")
 print("\n".join(rows))
-for rnd in ("r1", "r2", "r3"):
+for rnd in ROUNDS:
+    if not tot[rnd][0]:
+        continue
     print("\nround %s: %d confirmed changes, %d caught at first evaluation, %d caught by the final checks."
           % (rnd, tot[rnd][0], tot[rnd][1], tot[rnd][2]))
